@@ -28,6 +28,10 @@ FILES = {
     "pkg/sub/h_bad4.py": "class :\n",
     "pkg/bom.py": "\ufeffvalues = set([7, 8])\nassert (3, 'bom')\n",
     "notes.txt": "x = set([1])\n",
+    # names that differ only by case (ties of any case-insensitive ordering)
+    "pkg/Handlers.py": "h1 = set([1])\n",
+    "pkg/handlers.py": "h2 = set([2])\nassert (1, 'h')\n",
+    "pkg/HANDLERS.py": "h3 = set([3])\n",
 }
 CODEMODS = "pixee:python/use-set-literal,pixee:python/fix-assert-tuple,pixee:python/use-generator,pixee:python/fix-mutable-params"
 
@@ -113,6 +117,22 @@ def run(chk: Check) -> None:
         scenarios.append(_scenario(sid, {f: FILES[f]}, ["--max-workers", "1"]))
         meta[sid] = {"kind": "single", "file": f}
 
+    # ---- F: a large project (over a thousand siblings) with a rule-detected codemod; files in directories that tools
+    # commonly skip by default (vendor/, build/, dist/, third_party/) must be treated as when they are alone
+    trig = "import requests\n\nrequests.get(u, verify=False)\n"
+    special = {"app/vendor/client.py": trig, "build/gen.py": trig, "dist/pkg/mod.py": trig, "third_party/lib/x.py": trig, "app/core.py": trig}
+    large = dict(special)
+    for k in range(1030):
+        large[f"filler/p{k // 100}/m{k:04d}.py"] = f"v{k} = {k}\n"
+    rv = ["{dir}", "--output", "{out}", "--codemod-include", "pixee:python/requests-verify"]
+    # run from a neutral working directory (the rule engine's own ignore defaults depend on where it is started)
+    scenarios.append({"id": "C11-large", "files": large, "steps": [{"argv": rv, "keep_after": True, "cwd": "{work}"}]})
+    meta["C11-large"] = {"kind": "large", "files": len(large)}
+    for f in special:
+        sid = f"C11-largesingle-{f}"
+        scenarios.append({"id": sid, "files": {f: special[f]}, "steps": [{"argv": rv, "keep_after": True, "cwd": "{work}"}]})
+        meta[sid] = {"kind": "large-single", "file": f}
+
     results = {r["id"]: r for r in runner.run_many(scenarios)}
     ref = results["C11-ref"]["steps"][0]
     ref_rep = norm_report(ref["report"])
@@ -133,9 +153,12 @@ def run(chk: Check) -> None:
                 chk.nontrivial(("sched", m["w"], tuple(m["completion_order"]), tuple(ends[:n])))
             else:
                 chk.nontrivial((m["kind"], json.dumps(m, sort_keys=True)))
-        elif m["kind"] == "single":
+        elif m["kind"] == "large":
+            chk.nontrivial(("large", m["files"]))
+        elif m["kind"] in ("single", "large-single"):
             f = m["file"]
-            same_file = st["after"].get(f) == ref["after"].get(f)
+            base = results["C11-large" if m["kind"] == "large-single" else "C11-ref"]["steps"][0]
+            same_file = st["after"].get(f) == base["after"].get(f)
 
             def per_file(rep, f=f):
                 out = []
@@ -146,8 +169,8 @@ def run(chk: Check) -> None:
                 return out
 
             tr["events"].append({"ev": "Compare", "what": "file-content-depends-on-siblings", "equal": bool(same_file)})
-            tr["events"].append({"ev": "Compare", "what": "file-result-depends-on-siblings", "equal": per_file(st["report"]) == per_file(ref["report"])})
-            chk.nontrivial(("single", f))
+            tr["events"].append({"ev": "Compare", "what": "file-result-depends-on-siblings", "equal": per_file(st["report"]) == per_file(base["report"])})
+            chk.nontrivial((m["kind"], f))
         traces.append(tr)
 
     # ---- C: hash seeds (fresh interpreters).  SAST mode: tool codemods of several collections are eligible.
